@@ -197,10 +197,45 @@ func GenNoti(rng *simrt.Rand, u *gen.Universe, target string, tsLo, tsHi int64, 
 
 // GenStreams draws one operation list per target of u.
 func GenStreams(rng *simrt.Rand, u *gen.Universe, prop string, lifecycle, small, share bool, maxOps int) [][]Op {
+	return GenStreamsR(rng, u, prop, lifecycle, false, small, share, maxOps)
+}
+
+// GenStreamsR is GenStreams with an optional sprinkling of Reset calls alone
+// (resetOnly): the reconnection of a target is part of every update history,
+// whatever the collector's clock does, and the statement of C02 speaks of the
+// latest timestamp accepted - which a Reset forgets.
+func GenStreamsR(rng *simrt.Rand, u *gen.Universe, prop string, lifecycle, resetOnly, small, share bool, maxOps int) [][]Op {
 	var streams [][]Op
 	for _, tg := range u.Targets {
 		var ops []Op
 		removed := false
+		sinceReset := 99
+		// leaves this stream has written so far (full path, origin, value): a
+		// target that re-sends part of its state in one notification refreshes
+		// some leaves with the value they already hold and changes others
+		type sent struct {
+			full   []gen.Elem
+			origin string
+			val    gen.Val
+		}
+		var hist []sent
+		remember := func(nt *gen.Noti) {
+			if nt.Atomic {
+				return
+			}
+			for _, up := range nt.Ups {
+				if up.Origin != "" || up.NilPath {
+					continue
+				}
+				full := append(append([]gen.Elem(nil), nt.Prefix...), up.Path...)
+				if len(full) > 0 {
+					hist = append(hist, sent{full, nt.Origin, up.Val})
+				}
+			}
+			if len(hist) > 12 {
+				hist = hist[len(hist)-12:]
+			}
+		}
 		n := 1 + rng.Intn(maxOps)
 		if prop == "C02" && rng.Chance(0.3) {
 			n = 40 + rng.Intn(20)
@@ -235,11 +270,54 @@ func GenStreams(rng *simrt.Rand, u *gen.Universe, prop string, lifecycle, small,
 					continue
 				}
 			}
+			if resetOnly && rng.Chance(0.12) {
+				ops = append(ops, Op{K: "reset"})
+				sinceReset = 0
+				continue
+			}
+			if resetOnly && sinceReset < 3 {
+				// a target that comes back with a corrected clock: low timestamps
+				// right after the reset, so that the updates which follow are far
+				// ahead of everything accepted since
+				sinceReset++
+				ops = append(ops, Op{K: "upd", N: GenNoti(rng, u, tg, 90, 99, small, share)})
+				continue
+			}
+			if resetOnly && sinceReset < 6 {
+				sinceReset++
+				ops = append(ops, Op{K: "upd", N: GenNoti(rng, u, tg, 118, 140, small, share)})
+				continue
+			}
 			if prop == "C12" && rng.Chance(0.5) {
 				ops = append(ops, Op{K: "upd", N: gen.HostileNoti(rng, u, tg, 90+int64(rng.Intn(50)))})
 				continue
 			}
-			ops = append(ops, Op{K: "upd", N: GenNoti(rng, u, tg, 90, 140, small, share)})
+			if len(hist) >= 2 && rng.Chance(0.1) {
+				// a partial re-send: several leaves written before, in one
+				// notification with a recent timestamp, most with the value they
+				// were last sent with
+				first := hist[rng.Intn(len(hist))]
+				nt := &gen.Noti{Target: tg, Origin: first.origin, TS: 125 + int64(rng.Intn(16))}
+				for i := 2 + rng.Intn(2); i > 0; i-- {
+					h := hist[rng.Intn(len(hist))]
+					if i > 1 && rng.Chance(0.5) {
+						h = first
+					}
+					v := h.val
+					if rng.Chance(0.35) {
+						v = gen.RandVal(rng, small)
+					}
+					nt.Ups = append(nt.Ups, gen.Upd{Path: append([]gen.Elem(nil), h.full...), Val: v})
+				}
+				if rng.Chance(0.5) {
+					nt.Ups[0], nt.Ups[len(nt.Ups)-1] = nt.Ups[len(nt.Ups)-1], nt.Ups[0]
+				}
+				ops = append(ops, Op{K: "upd", N: nt})
+				continue
+			}
+			nt := GenNoti(rng, u, tg, 90, 140, small, share)
+			remember(nt)
+			ops = append(ops, Op{K: "upd", N: nt})
 		}
 		streams = append(streams, ops)
 	}
@@ -270,7 +348,12 @@ func (H) Generate(rng *simrt.Rand, prop, tier string) (any, simrt.Config) {
 		sc.ClockMode = []string{"frozen", "advancing", "jumpy", "jumpy"}[rng.Intn(4)]
 	}
 	lifecycle := sc.ClockMode == "advancing" && (prop == "C14" || prop == "C15" || prop == "C12" || prop == "C03" && rng.Chance(0.6) || rng.Chance(0.15))
-	sc.Streams = GenStreams(rng, u, prop, lifecycle, small, share, 4+rng.Intn(26))
+	pReset := 0.25
+	if sc.Opts.FutureNs > 0 {
+		pReset = 0.6 // what a Reset must forget only matters to the future-threshold rule
+	}
+	resetOnly := prop == "C02" && !lifecycle && rng.Chance(pReset)
+	sc.Streams = GenStreamsR(rng, u, prop, lifecycle, resetOnly, small, share, 4+rng.Intn(26))
 	// clock task
 	if sc.ClockMode != "frozen" || rng.Chance(0.5) {
 		v := sc.Clock0
@@ -931,7 +1014,11 @@ targets:
 			return sb.String()
 		}
 		synced, connected := false, false
+		resetSeen := false
 		for k, r := range w.recs[i] {
+			if r.op.K == "reset" {
+				resetSeen = true
+			}
 			nOps++
 			cBefore := m.C
 			if exists {
@@ -981,6 +1068,9 @@ targets:
 				if exp.Ambiguous {
 					x.Probe("model-gave-up:future-verdict-of-a-multi-update-depends-on-the-clock-reading")
 					continue targets
+				}
+				if len(exp.Classes) == 1 && exp.Classes[0] == "future" && resetSeen {
+					x.Probe("future-verdict-after-a-reset")
 				}
 				x.Oblige(3)
 				okClass := false
